@@ -409,6 +409,13 @@ def run_keys(desc):
         expect_accept = usable and trusted
         what = f'key state {state}, owner-trust {trust}, via {desc["via"]}'
         m = ManifestFile()
+        if desc['via'] == 'load':
+            # the instance already holds a verified, signed Manifest
+            if 'prime_env' not in _env_cache:
+                _env_cache['prime_env'] = make_env(
+                    fx['valid']['pub'], 'import-trust', fx['valid']['fpr'])
+            m.load(io.StringIO(fx['valid']['signed']), verify_openpgp=True,
+                   openpgp_env=_env_cache['prime_env'])
         try:
             if desc['via'] == 'verify_file':
                 sig = env.verify_file(io.StringIO(k['signed']))
@@ -706,11 +713,12 @@ def cleanup():
             _fx[k]['home'].close()
         except Exception:
             pass
-    if 'env' in _env_cache:
-        try:
-            _env_cache['env'].close()
-        except Exception:
-            pass
+    for k in ('env', 'prime_env'):
+        if k in _env_cache:
+            try:
+                _env_cache[k].close()
+            except Exception:
+                pass
 
 
 worker_cleanup = cleanup
